@@ -31,6 +31,9 @@ Stats0 == [events |-> 0, subsets |-> 0, subsets_ok |-> 0, subsets_refused |-> 0,
            with_pulled_in |-> 0, pulled_in |-> 0, order_as_model |-> 0, order_other |-> 0,
            glyphs |-> 0, outlines_compared |-> 0, outlines_nonempty |-> 0, source_without_outline |-> 0,
            bare_close_ignored |-> 0, metrics_compared |-> 0, records_compared |-> 0, composite_records |-> 0,
+           comp_scale |-> 0, comp_xy_scale |-> 0, comp_two_by_two |-> 0, comp_two_by_two_asymmetric |-> 0,
+           comp_negative_transform |-> 0, comp_point_args |-> 0, composite_with_instructions |-> 0,
+           transformed_outlines_compared |-> 0,
            kind_glyf |-> 0, kind_cff |-> 0, kind_cid |-> 0, kind_cff2 |-> 0]
 
 \* ---- Subset events ------------------------------------------------------------------
@@ -69,7 +72,18 @@ DropBareClose(c, i, acc) ==
   ELSE IF c[i][1] = 5 /\ (i = 1 \/ c[i - 1][1] = 5) THEN DropBareClose(c, i + 1, acc)
   ELSE DropBareClose(c, i + 1, Append(acc, c[i]))
 SameOutline(a, b) == IF a = b THEN TRUE ELSE DropBareClose(a, 1, <<>>) = DropBareClose(b, 1, <<>>)
-RecordsEqual(a, b) == a.kind = b.kind /\ a.ends = b.ends /\ a.pts = b.pts /\ a.comps = b.comps
+\* comps: PlacementOf of every component (flag bits of CompSem, the two arguments, the F2Dot14 raw values of
+\* the transform) - RecordKept of Subset.tla on the records read by the independent reader - plus the
+\* contours point by point
+RecordsEqual(a, b) == a.kind = b.kind /\ a.ends = b.ends /\ a.pts = b.pts /\ a.comps = b.comps /\ a.instr = b.instr
+\* families of component records (vacuity counters): how many components of the compared composite show them
+CompCount(r, P(_)) == IF r.kind = "composite" THEN Cardinality({k \in 1 .. Len(r.comps) : P(r.comps[k])}) ELSE 0
+IsScale(p) == Len(p[4]) = 1
+IsXYScale(p) == Len(p[4]) = 2
+IsTwoByTwo(p) == Len(p[4]) = 4
+IsAsymmetric(p) == Len(p[4]) = 4 /\ p[4][2] # p[4][3]
+HasNegative(p) == \E i \in 1 .. Len(p[4]) : p[4][i] < 0
+IsPointArgs(p) == (p[1] & FlXY) = 0
 Readable(r) == r.kind \in {"empty", "simple", "composite"}
 
 GlyphBad(e) ==
@@ -104,8 +118,20 @@ Bump(s, e) ==
                  !.order_as_model = @ + (IF asmodel THEN 1 ELSE 0),
                  !.order_other = @ + (IF glyf /\ ~asmodel THEN 1 ELSE 0)]
   ELSE IF e.ev = "Glyph" THEN
-    LET both == e.o.src.ok /\ e.o.out.ok IN
+    LET both == e.o.src.ok /\ e.o.out.ok
+        cr == e.a.ind /\ e.o.isrc.kind = "composite"
+        r == e.o.isrc
+    IN
     [s EXCEPT !.events = @ + 1, !.glyphs = @ + 1,
+              !.comp_scale = @ + (IF cr THEN CompCount(r, IsScale) ELSE 0),
+              !.comp_xy_scale = @ + (IF cr THEN CompCount(r, IsXYScale) ELSE 0),
+              !.comp_two_by_two = @ + (IF cr THEN CompCount(r, IsTwoByTwo) ELSE 0),
+              !.comp_two_by_two_asymmetric = @ + (IF cr THEN CompCount(r, IsAsymmetric) ELSE 0),
+              !.comp_negative_transform = @ + (IF cr THEN CompCount(r, HasNegative) ELSE 0),
+              !.comp_point_args = @ + (IF cr THEN CompCount(r, IsPointArgs) ELSE 0),
+              !.composite_with_instructions = @ + (IF cr /\ r.instr # <<>> THEN 1 ELSE 0),
+              \* a composite with a transformed component whose outline allsorts' visitor delivered on both sides
+              !.transformed_outlines_compared = @ + (IF cr /\ both /\ e.o.src.cmds # <<>> /\ CompCount(r, LAMBDA p : p[4] # <<>>) > 0 THEN 1 ELSE 0),
               !.outlines_compared = @ + (IF both THEN 1 ELSE 0),
               !.outlines_nonempty = @ + (IF both /\ e.o.src.cmds # <<>> THEN 1 ELSE 0),
               !.source_without_outline = @ + (IF e.o.src.ok THEN 0 ELSE 1),
